@@ -348,13 +348,13 @@ Definition dc_unreserved (c : byte) : bool :=
   dc_in 48 57 c || dc_in 65 90 c || dc_in 97 122 c || (c =? 45) || (c =? 46) || (c =? 95) || (c =? 126).
 Definition dc_path_byte (c : byte) : bool := dc_unreserved c || (c =? 47).
 Definition dc_no_ctl (c : byte) : bool := negb (c <? 32) && negb (c =? 127).
-Definition dc_simple_uri (u : bytes) : bool :=
-  let '(p, q, _) := dc_cut 63 u in
+Definition dc_origin_path (p : bytes) : bool :=
   match p with
-  | 47 :: 47 :: _ => false
-  | 47 :: _ => forallb dc_path_byte p && forallb dc_no_ctl q
-  | _ => false
+  | a :: r => (a =? 47) && negb (match r with b :: _ => b =? 47 | [] => false end) && forallb dc_path_byte p
+  | [] => false
   end.
+Definition dc_simple_uri (u : bytes) : bool :=
+  let '(p, q, _) := dc_cut 63 u in dc_origin_path p && forallb dc_no_ctl q.
 Definition dc_simple_parse_uri (u : bytes) : option uri_parts :=
   if dc_simple_uri u then let '(p, q, _) := dc_cut 63 u in Some (mk_uri p q u) else None.
 
